@@ -12,6 +12,7 @@ package db
 //@ ghost pos bv64
 //@ ghost halt bool
 //@ ghost cur_tree bv64
+//@ ghost ixmode bool
 
 // B-tree node objects are immutable after construction (checked by the frame scan).
 //@ immutable db.tableLeaf.cells db.tableInterior.cells db.tableInterior.rightmost
@@ -65,7 +66,7 @@ package db
 //@   props C01 C04 C12 C17
 //@   opt params=cbrowid cbpl
 //@   opt results=done err
-//@   modifies * -M:S_db_KeyCol pos halt
+//@   modifies * -M:S_db_KeyCol -M:S_sqlittle_columnIndex pos halt
 //@   requires [nohalt] !halt
 //@   requires [item] cbrowid == tb_rowid(cur_tree, pos) && cbpl == tb_payload(cur_tree, pos) && wf_payload(cbpl)
 //@   ensures err == nil && !done ==> pos == old(pos) + 1 && !halt
@@ -77,7 +78,7 @@ package db
 //@   props C01 C04 C12 C17
 //@   opt params=page
 //@   opt results=done err
-//@   modifies * -M:S_db_KeyCol pos halt
+//@   modifies * -M:S_db_KeyCol -M:S_sqlittle_columnIndex pos halt
 //@   requires [nohalt] !halt
 //@   requires [child] tree_of(page) == cur_tree
 //@   requires [cursor] (!searching ==> pos == p_lo(page)) && (searching ==> ule(p_lo(page), TFIRST()) && ule(TFIRST(), p_hi(page)) && pos == TFIRST())
@@ -91,7 +92,7 @@ package db
 //@   props C01 C12 C17
 //@   opt params=self r db cb
 //@   opt results=done err
-//@   modifies * -M:S_db_KeyCol pos halt
+//@   modifies * -M:S_db_KeyCol -M:S_sqlittle_columnIndex pos halt
 //@   requires [nonnil] self != nil && cb != nil && db != nil
 //@   requires [nohalt] !halt && !searching
 //@   requires [nodewf] tleaf_wf(self)
@@ -109,7 +110,7 @@ package db
 //@   props C01 C12 C17
 //@   uses table_tree
 //@   opt results=done err
-//@   modifies * -M:S_db_KeyCol pos halt
+//@   modifies * -M:S_db_KeyCol -M:S_sqlittle_columnIndex pos halt
 //@   requires l != nil && cb != nil && db != nil
 //@   requires !halt && !searching
 //@   requires tree_of(pg(l)) == cur_tree && pos == p_lo(pg(l))
@@ -131,7 +132,7 @@ package db
 // its page number.
 //@ func (*db.Database).openTable
 //@   props C01 C04 C08 C12
-//@   modifies * -M:S_db_KeyCol hdr_valid hdr_ps hdr_cookie jr_pos peer_state
+//@   modifies * -M:S_db_KeyCol -M:S_sqlittle_columnIndex hdr_valid hdr_ps hdr_cookie jr_pos peer_state
 //@   requires db != nil
 //@   ensures [current] err == nil ==> r0 != nil && repr(r0, page, db.header.ChangeCounter) && db.header.ChangeCounter == cc_now && CACHE_OK(db) && !db.dirty
 //@   trusted-ensures err == nil ==> r0 != nil && iref(r0) != nil && pg(iref(r0)) == page && tleaf_wf(iref(r0))
@@ -164,7 +165,7 @@ package db
 //@   props C04 C12
 //@   opt params=self r db rowid cb
 //@   opt results=done err
-//@   modifies * -M:S_db_KeyCol pos halt
+//@   modifies * -M:S_db_KeyCol -M:S_sqlittle_columnIndex pos halt
 //@   requires [nonnil] self != nil && cb != nil && db != nil
 //@   requires [mode] searching && rowid == skey && !halt
 //@   requires [nodewf] tleaf_wf(self)
@@ -180,7 +181,7 @@ package db
 //@   props C04 C12
 //@   uses table_tree table_sorted
 //@   opt results=done err
-//@   modifies * -M:S_db_KeyCol pos halt
+//@   modifies * -M:S_db_KeyCol -M:S_sqlittle_columnIndex pos halt
 //@   requires l != nil && cb != nil && db != nil && searching && rowid == skey && !halt
 //@   requires tree_of(pg(l)) == cur_tree && ule(p_lo(pg(l)), TFIRST()) && ule(TFIRST(), p_hi(pg(l))) && pos == TFIRST()
 //@   ensures [found] err == nil && ult(TFIRST(), p_hi(pg(l))) ==> done && halt && pos == old(pos) + 1
@@ -238,21 +239,24 @@ package db
 //@   props C01 C17
 //@   opt params=rowid rec
 //@   opt results=done
-//@   modifies * -M:S_db_KeyCol pos halt
+//@   modifies * -M:S_db_KeyCol -M:S_sqlittle_columnIndex pos halt
 //@   requires [nohalt] !halt
 //@   requires [item] rowid == tb_rowid(cur_tree, pos) && recof(rec, tb_payload(cur_tree, pos))
+//@   requires [mode] !ixmode
 //@   ensures pos == old(pos) + 1 && (halt <==> done)
 
 //@ func (*db.Table).Scan
 //@   props C01 C12 C17
 //@   uses table_tree
-//@   modifies * -M:S_db_KeyCol
+//@   modifies * -M:S_db_KeyCol -M:S_sqlittle_columnIndex
 //@   requires t != nil && cb != nil
 //@   ghost-entry cur_tree = tree_of(t.root)
 //@   ghost-entry pos = p_lo(t.root)
 //@   ghost-entry halt = false
 //@   ghost-entry searching = false
+//@   ghost-entry ixmode = false
 //@   ensures-before-exit [all] r0 == nil && !halt ==> pos == p_hi(t.root)
+//@   ghost-exit ixmode = old(ixmode)
 //@   ghost-exit cur_tree = old(cur_tree)
 //@   ghost-exit pos = old(pos)
 //@   ghost-exit halt = old(halt)
@@ -260,13 +264,13 @@ package db
 
 //@ func (*db.Table).Scan$1
 //@   implements functype db.iterCB
-//@   free-requires cb != nil && t != nil && t.db != nil && !searching
+//@   free-requires cb != nil && t != nil && t.db != nil && !searching && !ixmode
 
 // Rowid lookup. The consumer closure counts the delivery itself (it is the end of the chain).
 //@ func (*db.Table).Rowid
 //@   props C04 C12
 //@   uses table_tree table_sorted
-//@   modifies * -M:S_db_KeyCol
+//@   modifies * -M:S_db_KeyCol -M:S_sqlittle_columnIndex
 //@   requires t != nil && tree_of(t.root) == t.root
 //@   ghost-entry cur_tree = t.root
 //@   ghost-entry searching = true
@@ -304,7 +308,7 @@ package db
 //@   props C02 C03 C12 C13 C17
 //@   opt params=cbrec
 //@   opt results=done err
-//@   modifies * -M:S_db_KeyCol pos halt
+//@   modifies * -M:S_db_KeyCol -M:S_sqlittle_columnIndex pos halt
 //@   requires [nohalt] !halt
 //@   requires [item] recof(cbrec, ix_payload(cur_tree, pos)) && RECOK(cbrec)
 //@   ensures err == nil && !done ==> pos == old(pos) + 1 && !halt
@@ -314,7 +318,7 @@ package db
 //@   props C02 C12 C13 C17
 //@   opt params=self r db cb
 //@   opt results=done err
-//@   modifies * -M:S_db_KeyCol pos halt
+//@   modifies * -M:S_db_KeyCol -M:S_sqlittle_columnIndex pos halt
 //@   requires [nonnil] self != nil && cb != nil && db != nil
 //@   requires [nohalt] !halt
 //@   requires [nodewf] ileaf_wf(self) && iint_wf(self)
@@ -336,7 +340,7 @@ package db
 
 //@ func (*db.Database).openIndex
 //@   props C02 C03 C08 C12 C13
-//@   modifies * -M:S_db_KeyCol hdr_valid hdr_ps hdr_cookie jr_pos peer_state
+//@   modifies * -M:S_db_KeyCol -M:S_sqlittle_columnIndex hdr_valid hdr_ps hdr_cookie jr_pos peer_state
 //@   requires db != nil
 //@   ensures [current] err == nil ==> r0 != nil && repr(r0, page, db.header.ChangeCounter) && db.header.ChangeCounter == cc_now && CACHE_OK(db) && !db.dirty
 //@   trusted-ensures err == nil ==> r0 != nil && iref(r0) != nil && pg(iref(r0)) == page && ileaf_wf(iref(r0)) && iint_wf(iref(r0))
@@ -346,16 +350,18 @@ package db
 //@   props C02 C03 C13 C17
 //@   opt params=cbrec
 //@   opt results=done
-//@   modifies * -M:S_db_KeyCol pos halt
+//@   modifies * -M:S_db_KeyCol -M:S_sqlittle_columnIndex pos halt
 //@   requires [nohalt] !halt
 //@   requires [item] recof(cbrec, ix_payload(cur_tree, pos))
 //@   requires [filter] (eqmode ==> eqls(ikey, ix_payload(cur_tree, pos))) && (rngmode ==> !srch(tokey, ix_payload(cur_tree, pos)))
-//@   ensures pos == old(pos) + 1 && (halt <==> done)
+//@   requires [mode] ixmode
+//@   ensures [next] !done ==> pos == old(pos) + 1 && !halt
+//@   ensures [stop] done ==> halt
 
 //@ func (*db.Index).Scan
 //@   props C02 C12 C17
 //@   uses index_tree
-//@   modifies * -M:S_db_KeyCol
+//@   modifies * -M:S_db_KeyCol -M:S_sqlittle_columnIndex
 //@   requires in != nil && cb != nil
 //@   ghost-entry cur_tree = tree_of(in.root)
 //@   ghost-entry pos = p_lo(in.root)
@@ -363,7 +369,9 @@ package db
 //@   ghost-entry searching = false
 //@   ghost-entry eqmode = false
 //@   ghost-entry rngmode = false
+//@   ghost-entry ixmode = true
 //@   ensures-before-exit [all] r0 == nil && !halt ==> pos == p_hi(in.root)
+//@   ghost-exit ixmode = old(ixmode)
 //@   ghost-exit cur_tree = old(cur_tree)
 //@   ghost-exit pos = old(pos)
 //@   ghost-exit halt = old(halt)
@@ -373,7 +381,7 @@ package db
 
 //@ func (*db.Index).Scan$1
 //@   implements functype db.indexIterCB
-//@   free-requires cb != nil && !eqmode && !rngmode
+//@   free-requires cb != nil && !eqmode && !rngmode && ixmode
 
 // ---------------------------------------------------------------------------------------
 // Key search in index trees (C03, C13). search_fn / equals_fn name the results of Search / Equals on a
@@ -413,7 +421,7 @@ package db
 //@   props C03 C13 C12 C17
 //@   opt params=self r db key cb
 //@   opt results=done err
-//@   modifies * -M:S_db_KeyCol pos halt
+//@   modifies * -M:S_db_KeyCol -M:S_sqlittle_columnIndex pos halt
 //@   requires [nonnil] self != nil && cb != nil && db != nil
 //@   requires [mode] searching && key == ikey && KEYOK(key) && !halt
 //@   requires [nodewf] ileaf_wf(self) && iint_wf(self)
@@ -456,7 +464,7 @@ package db
 //@ func (*db.Index).ScanMin
 //@   props C03 C13 C12 C17
 //@   uses index_tree index_sorted
-//@   modifies * -M:S_db_KeyCol
+//@   modifies * -M:S_db_KeyCol -M:S_sqlittle_columnIndex
 //@   requires in != nil && cb != nil && tree_of(in.root) == in.root && KEYOK(from)
 //@   ghost-entry cur_tree = in.root
 //@   ghost-entry searching = true
@@ -465,7 +473,9 @@ package db
 //@   ghost-entry halt = false
 //@   ghost-entry eqmode = false
 //@   ghost-entry rngmode = false
+//@   ghost-entry ixmode = true
 //@   ensures-before-exit [all] r0 == nil && !halt ==> pos == p_hi(in.root)
+//@   ghost-exit ixmode = old(ixmode)
 //@   ghost-exit cur_tree = old(cur_tree)
 //@   ghost-exit pos = old(pos)
 //@   ghost-exit halt = old(halt)
@@ -477,21 +487,23 @@ package db
 
 //@ func (*db.Index).ScanMin$1
 //@   implements functype db.indexIterCB
-//@   free-requires cb != nil && !eqmode && !rngmode
+//@   free-requires cb != nil && !eqmode && !rngmode && ixmode
 
 //@ func (*db.Index).ScanEq
 //@   props C03 C13 C12 C17
 //@   uses index_tree index_sorted
-//@   modifies * -M:S_db_KeyCol
+//@   modifies * -M:S_db_KeyCol -M:S_sqlittle_columnIndex
 //@   requires in != nil && cb != nil && tree_of(in.root) == in.root && KEYOK(key)
 //@   ghost-entry cur_tree = in.root
 //@   ghost-entry searching = true
 //@   ghost-entry ikey = key
 //@   ghost-entry pos = ifirst(in.root, key)
 //@   ghost-entry halt = false
+//@   ghost-entry ixmode = true
 //@   ghost-entry eqmode = true
 //@   ghost-entry rngmode = false
 //@   ensures-before-exit [all] r0 == nil && !halt ==> pos == p_hi(in.root)
+//@   ghost-exit ixmode = old(ixmode)
 //@   ghost-exit cur_tree = old(cur_tree)
 //@   ghost-exit pos = old(pos)
 //@   ghost-exit halt = old(halt)
@@ -504,24 +516,26 @@ package db
 // stops at the first entry that is not equal to the key; forwards every equal entry
 //@ func (*db.Index).ScanEq$1
 //@   implements functype db.indexIterCB
-//@   free-requires cb != nil && key == ikey && KEYOK(key) && eqmode && !rngmode
+//@   free-requires cb != nil && key == ikey && KEYOK(key) && eqmode && !rngmode && ixmode
 //@   ensures [filter] err == nil && !eqls(ikey, ix_payload(cur_tree, old(pos))) ==> done && pos == old(pos)
 //@   ghost-exit halt = halt || done
 
 //@ func (*db.Index).ScanRange
 //@   props C03 C13 C12 C17
 //@   uses index_tree index_sorted
-//@   modifies * -M:S_db_KeyCol
+//@   modifies * -M:S_db_KeyCol -M:S_sqlittle_columnIndex
 //@   requires in != nil && cb != nil && tree_of(in.root) == in.root && KEYOK(from) && KEYOK(to)
 //@   ghost-entry cur_tree = in.root
 //@   ghost-entry searching = true
 //@   ghost-entry ikey = from
 //@   ghost-entry pos = ifirst(in.root, from)
 //@   ghost-entry halt = false
+//@   ghost-entry ixmode = true
 //@   ghost-entry eqmode = false
 //@   ghost-entry rngmode = true
 //@   ghost-entry tokey = to
 //@   ensures-before-exit [all] r0 == nil && !halt ==> pos == p_hi(in.root)
+//@   ghost-exit ixmode = old(ixmode)
 //@   ghost-exit cur_tree = old(cur_tree)
 //@   ghost-exit pos = old(pos)
 //@   ghost-exit halt = old(halt)
@@ -534,6 +548,6 @@ package db
 // stops at the first entry that is not less than the upper key
 //@ func (*db.Index).ScanRange$1
 //@   implements functype db.indexIterCB
-//@   free-requires cb != nil && to == tokey && KEYOK(to) && rngmode && !eqmode
+//@   free-requires cb != nil && to == tokey && KEYOK(to) && rngmode && !eqmode && ixmode
 //@   ensures [filter] err == nil && srch(tokey, ix_payload(cur_tree, old(pos))) ==> done && pos == old(pos)
 //@   ghost-exit halt = halt || done
